@@ -28,6 +28,8 @@ DROPPED = ['Result<V,E> / forwarded payloads are (kind, state, tag) triples; `st
            'the union {Result _result; Callback _self} is two fields plus a ghost discriminator: reading _self after Store is an obligation failure',
            'the lambda async_done of Core::Impl is inlined textually at its call sites']
 ASSUMPTIONS = ['payload constructors / moves do not throw (the code itself declares the functions noexcept)']
+# real-code drivers that exercise what this unit proves (thorough tier: sanity run on the tree under check)
+DRIVERS = [('pipeline.cpp', [], 'default'), ('task_return.cpp', ['all'], 'default')]
 
 COMMON = r'''
 #include "vf.h"
